@@ -393,6 +393,7 @@ func viewCase(r *Rng, k int) Case {
 			c.View["bufa"] = randVW(r, n, randShape(r))
 			c.InSituA = true
 		}
+		c.AliasX = r.Intn(3) == 0 // round 7: solve in place (InSitu.X = b)
 	case "Det":
 		c.Kind, c.A = "Det", mat()
 		c.View["m"] = randVW(r, n, randShape(r))
